@@ -212,6 +212,45 @@ def RawOut.stops : RawOut → Bool
   | .eof => true
   | _ => false
 
+/-! ### the client's handshake: which receive buffer size can be in force
+
+  `uacp.Conn.Handshake` (after `fix:` 30678c7): the Acknowledge of the server is
+  refused when its receive or send buffer size is below `minBuf`
+  (`Gen.RecvFacts.ackMinBufSize`, 0 = no check: the code before the repair);
+  otherwise it is adopted, the receive buffer size capped by the value of the
+  client's own Hello when that is not 0 (`capped` = `Gen.RecvFacts.ackRcvCappedByHello`). -/
+
+/-- `none` = the handshake is refused (ERRF sent, `c.ack` stays the client's own
+    configuration, `Dial` closes the connection); `some b` = the receive buffer
+    size in force afterwards -/
+def handshake (minBuf : Nat) (capped : Bool) (own ackRcv ackSnd : Nat) : Option Nat :=
+  if ackRcv < minBuf ∨ ackSnd < minBuf then none
+  else if capped ∧ own ≠ 0 ∧ ackRcv > own then some own
+  else some ackRcv
+
+/-- after a successful handshake the receive buffer has at least `min minBuf own`
+    bytes (`minBuf` when the client's own value is 0 or at least `minBuf`) … -/
+theorem handshake_lower {minBuf : Nat} {capped : Bool} {own r s b : Nat}
+    (h : handshake minBuf capped own r s = some b) : (own = 0 ∨ minBuf ≤ own) → minBuf ≤ b := by
+  unfold handshake at h
+  intro ho
+  split at h
+  · cases h
+  · split at h <;> cases h <;> omega
+
+/-- … and, with the cap, never more than the client announced itself -/
+theorem handshake_upper {minBuf own r s b : Nat}
+    (h : handshake minBuf true own r s = some b) (ho : own ≠ 0) : b ≤ own := by
+  unfold handshake at h
+  split at h
+  · cases h
+  · split at h
+    · cases h; exact Nat.le_refl _
+    · rename_i h2
+      cases h
+      simp at h2
+      exact h2 ho
+
 /-! ### retained memory -/
 
 /-- every buffered list respects the chunk limit -/
